@@ -29,10 +29,11 @@ const (
 	EOSignFailTSA
 	EOVerify
 	EOContent
+	EOReparse // parse the bytes the object was parsed from once more (a second object) and observe THAT object
 	nEnvOps
 )
 
-var envOpNames = []string{"sign_valid", "sign_invalid_request", "sign_signer_fails", "sign_chain_invalid_at_signing_time", "sign_tsa_fails", "verify", "content"}
+var envOpNames = []string{"sign_valid", "sign_invalid_request", "sign_signer_fails", "sign_chain_invalid_at_signing_time", "sign_tsa_fails", "verify", "content", "reparse_original_bytes"}
 
 type c20Op struct {
 	Kind      int
@@ -49,7 +50,8 @@ type c20Op struct {
 
 type c20Scenario struct {
 	Format   int
-	Start    int // 0 new, 1 parsed valid, 2 parsed tampered
+	Start    int // 0 new, 1 parsed valid, 2 parsed tampered, 3 parsed from a third party's re-encoding (unprotected part reshaped)
+	Reshape  int // start 3: which reshaping
 	StartReq int
 	KeyA     string
 	KeyB     string
@@ -61,7 +63,8 @@ type c20Scenario struct {
 func genC20(t *Tape) *c20Scenario {
 	sc := &c20Scenario{}
 	sc.Format = t.Choose(2)
-	sc.Start = t.Weighted(50, 30, 20)
+	sc.Start = t.Weighted(45, 28, 17, 10)
+	sc.Reshape = t.Choose(4)
 	sc.StartReq = t.Choose(2)
 	sc.KeyA = signKeyKinds[t.Weighted(55, 10, 5, 20, 7, 3)]
 	sc.KeyB = signKeyKinds[t.Weighted(55, 10, 5, 20, 7, 3)]
@@ -70,7 +73,10 @@ func genC20(t *Tape) *c20Scenario {
 	n := 1 + t.Weighted(8, 18, 22, 22, 18, 12)
 	for i := 0; i < n; i++ {
 		op := c20Op{}
-		op.Kind = t.Weighted(18, 8, 10, 16, 8, 22, 18)
+		op.Kind = t.Weighted(18, 8, 10, 16, 8, 22, 18, 6)
+		if op.Kind == EOReparse && sc.Start == 0 {
+			op.Kind = EOContent
+		}
 		op.Req = t.Choose(2)
 		op.Remote = t.Bool(40)
 		op.WithTSA = t.Bool(20)
@@ -151,10 +157,11 @@ func (r *c20Req) expect(signingTime time.Time, expiry time.Time) string {
 
 // machine states
 type c20State struct {
-	Kind    string // "empty" | "holds" | "parsed" | "tampered"
-	Content string // canonical expected content (holds / parsed)
-	Sigs    string // signature + timestamp hashes once known ("" = any)
-	Payload string // tampered: canonical tampered payload
+	Kind    string    // "empty" | "holds" | "parsed" | "tampered" | "foreign"
+	Seen    [2]string // foreign: what verify / content showed first ("" = not yet observed)
+	Content string    // canonical expected content (holds / parsed)
+	Sigs    string    // signature + timestamp hashes once known ("" = any)
+	Payload string    // tampered: canonical tampered payload
 	Label   string
 }
 
@@ -202,6 +209,98 @@ func tamperEnvelope(format int, b []byte, newPayload []byte) ([]byte, error) {
 		return nil, err
 	}
 	arr[2] = np
+	content, err := cbor.Marshal(arr)
+	if err != nil {
+		return nil, err
+	}
+	return cbor.Marshal(cbor.RawTag{Number: 18, Content: content})
+}
+
+var reshapeNames = [2][]string{
+	{"x5c_leaf_only", "unknown_header_member", "x5c_as_string", "x5c_removed"},
+	{"x5chain_single_bstr", "x5chain_leaf_only_array", "unknown_header_label", "x5chain_single_bstr+unknown_label"},
+}
+
+// reshapeEnvelope re-encodes the UNPROTECTED part of an envelope the way a
+// third-party producer or a relaying registry might: the signed part and the
+// signature value stay as they are. What the library makes of the result is
+// not prescribed here; that it makes the same of it every time is.
+func reshapeEnvelope(format int, b []byte, kind int) ([]byte, error) {
+	if format == 0 {
+		var m map[string]json.RawMessage
+		if err := json.Unmarshal(b, &m); err != nil {
+			return nil, err
+		}
+		var h map[string]json.RawMessage
+		if err := json.Unmarshal(m["header"], &h); err != nil {
+			return nil, err
+		}
+		var x5c []string
+		if err := json.Unmarshal(h["x5c"], &x5c); err != nil || len(x5c) == 0 {
+			return nil, fmt.Errorf("reshape: x5c: %v", err)
+		}
+		switch kind {
+		case 0:
+			h["x5c"], _ = json.Marshal(x5c[:1])
+		case 1:
+			h["x-sim-relay"] = json.RawMessage(`"1"`)
+		case 2:
+			h["x5c"], _ = json.Marshal(x5c[0])
+		default:
+			delete(h, "x5c")
+		}
+		m["header"], _ = json.Marshal(h)
+		return json.Marshal(m)
+	}
+	var tagged cbor.RawTag
+	if err := cbor.Unmarshal(b, &tagged); err != nil {
+		return nil, err
+	}
+	var arr []cbor.RawMessage
+	if err := cbor.Unmarshal(tagged.Content, &arr); err != nil {
+		return nil, err
+	}
+	var un map[any]any
+	if err := cbor.Unmarshal(arr[1], &un); err != nil {
+		return nil, err
+	}
+	var key any
+	for k := range un {
+		switch v := k.(type) {
+		case int64:
+			if v == 33 {
+				key = k
+			}
+		case uint64:
+			if v == 33 {
+				key = k
+			}
+		}
+	}
+	chain, _ := un[key].([]any)
+	if key == nil || len(chain) == 0 {
+		return nil, fmt.Errorf("reshape: no x5chain array in the unprotected header")
+	}
+	switch kind {
+	case 0:
+		un[key] = chain[0]
+	case 1:
+		un[key] = chain[:1]
+	case 2:
+		un[int64(9999)] = "x"
+	default:
+		un[key] = chain[0]
+		un[int64(9999)] = "x"
+	}
+	em, err := cbor.CanonicalEncOptions().EncMode()
+	if err != nil {
+		return nil, err
+	}
+	nu, err := em.Marshal(un)
+	if err != nil {
+		return nil, err
+	}
+	arr[1] = nu
 	content, err := cbor.Marshal(arr)
 	if err != nil {
 		return nil, err
@@ -285,6 +384,8 @@ func (sc *c20Scenario) exec(obs *c20Obs, st *Stats) {
 	// ---------- initial object ----------
 	var env signature.Envelope
 	var states []c20State
+	var startBytes []byte
+	var reparsed [2]string // what a fresh object parsed from startBytes showed the first time (verify / content)
 	switch sc.Start {
 	case 0:
 		env, err = signature.NewEnvelope(mt)
@@ -312,7 +413,16 @@ func (sc *c20Scenario) exec(obs *c20Obs, st *Stats) {
 			return
 		}
 		want := r.expect(sr.SigningTime, sr.Expiry)
-		if sc.Start == 2 {
+		if sc.Start == 3 {
+			rb, err := reshapeEnvelope(sc.Format, b, sc.Reshape)
+			if err != nil {
+				obs.Harness = "reshape: " + err.Error()
+				return
+			}
+			b = rb
+			st.Probes["c20_start_reshaped_"+reshapeNames[sc.Format][sc.Reshape]]++
+			states = []c20State{{Kind: "foreign", Label: "parsed(" + r.Name + " re-encoded: " + reshapeNames[sc.Format][sc.Reshape] + ")"}}
+		} else if sc.Start == 2 {
 			other := reqs[1-sc.StartReq]
 			tb, err := tamperEnvelope(sc.Format, b, other.Payload)
 			if err != nil {
@@ -326,10 +436,43 @@ func (sc *c20Scenario) exec(obs *c20Obs, st *Stats) {
 		}
 		env, err = signature.ParseEnvelope(mt, b)
 		if err != nil {
+			if sc.Start == 3 {
+				// the library refuses these bytes outright: nothing to observe
+				st.Probes["c20_reshaped_bytes_refused_by_parse"]++
+				logf("start: %s refused by ParseEnvelope: %v", states[0].Label, errKind(err))
+				return
+			}
 			obs.Harness = "parse of own envelope failed: " + err.Error()
 			return
 		}
+		startBytes = b
 		logf("start: %s", states[0].Label)
+		// what a separate object parsed from the same bytes shows, before
+		// anything has happened
+		if ctrl, cerr := signature.ParseEnvelope(mt, b); cerr == nil {
+			for idx := 0; idx < 2; idx++ {
+				var c *signature.EnvelopeContent
+				var err error
+				func() {
+					defer func() {
+						if rec := recover(); rec != nil {
+							err = fmt.Errorf("panic: %v", rec)
+						}
+					}()
+					if idx == 0 {
+						c, err = ctrl.Verify()
+					} else {
+						c, err = ctrl.Content()
+					}
+				}()
+				if err != nil {
+					reparsed[idx] = "error(" + errKind(err) + ")"
+				} else {
+					content, sigs := canonContent(c)
+					reparsed[idx] = "content|" + content + "|" + sigs
+				}
+			}
+		}
 	}
 	stateNames := func() string {
 		var s []string
@@ -356,6 +499,46 @@ func (sc *c20Scenario) exec(obs *c20Obs, st *Stats) {
 	for oi, op := range sc.Ops {
 		r := reqs[op.Req]
 		switch op.Kind {
+		case EOReparse:
+			// a second object parsed from the same bytes shows those bytes,
+			// whatever was done to the first object meanwhile
+			ante("C20.M5")
+			st.Probes["c20_reparse_original_bytes"]++
+			second, perr := signature.ParseEnvelope(mt, startBytes)
+			if perr != nil {
+				fail("C20.M5", "reparse_refused", fmt.Sprintf("op %d: the bytes the object was parsed from no longer parse: %v", oi, perr))
+				continue
+			}
+			for idx, name := range []string{"verify", "content"} {
+				var c *signature.EnvelopeContent
+				var err error
+				func() {
+					defer func() {
+						if rec := recover(); rec != nil {
+							err = fmt.Errorf("panic: %v", rec)
+						}
+					}()
+					if idx == 0 {
+						c, err = second.Verify()
+					} else {
+						c, err = second.Content()
+					}
+				}()
+				full := ""
+				if err != nil {
+					full = "error(" + errKind(err) + ")"
+				} else {
+					content, sigs := canonContent(c)
+					full = "content|" + content + "|" + sigs
+				}
+				logf("op %d reparse: %s of the second object -> %s", oi, name, shortContent(full))
+				if reparsed[idx] == "" {
+					reparsed[idx] = full
+				} else if reparsed[idx] != full {
+					fail("C20.M5", "second_object_differs/"+name, fmt.Sprintf("op %d: an object freshly parsed from the same bytes showed something else than the first time (%s):\n  first: %s\n  now:   %s", oi, name, reparsed[idx], full))
+				}
+			}
+			continue
 		case EOVerify, EOContent:
 			var c *signature.EnvelopeContent
 			var err error
@@ -394,6 +577,11 @@ func (sc *c20Scenario) exec(obs *c20Obs, st *Stats) {
 			// M1 purity: same observation repeated without a sign in between
 			idx := op.Kind - EOVerify
 			full := outcome + "|" + content + "|" + sigs
+			if err != nil {
+				// equal results includes equal refusals: the same object must
+				// not be refused for a different reason the second time
+				full += "|" + err.Error()
+			}
 			if lastObsValid[idx] {
 				ante("C20.M1")
 				if lastObs[idx] != full {
@@ -418,6 +606,13 @@ func (sc *c20Scenario) exec(obs *c20Obs, st *Stats) {
 				case "holds", "parsed":
 					if outcome == "content" && content == s.Content && (s.Sigs == "" || s.Sigs == sigs) {
 						s.Sigs = sigs
+						keep = append(keep, s)
+					}
+				case "foreign":
+					// nothing is prescribed about what these bytes mean, only
+					// that they keep meaning the same
+					if s.Seen[idx] == "" || s.Seen[idx] == full {
+						s.Seen[idx] = full
 						keep = append(keep, s)
 					}
 				case "tampered":
@@ -702,7 +897,7 @@ func describeC20(sc *c20Scenario) any {
 		}
 		ops = append(ops, s)
 	}
-	return map[string]any{"format": []string{"jws", "cose"}[sc.Format], "start": []string{"new", "parsed_valid", "parsed_tampered"}[sc.Start], "start_request": []string{"A", "B"}[sc.StartReq],
+	return map[string]any{"format": []string{"jws", "cose"}[sc.Format], "start": []string{"new", "parsed_valid", "parsed_tampered", "parsed_reencoded_" + reshapeNames[sc.Format][sc.Reshape]}[sc.Start], "start_request": []string{"A", "B"}[sc.StartReq],
 		"key_a": sc.KeyA, "key_b": sc.KeyB, "payload_variant_a": sc.PayA, "payload_variant_b": sc.PayB, "ops": ops}
 }
 
